@@ -57,22 +57,28 @@ Proof. apply trunc_ar_cases. Qed.
 
 (* the questions kept: a prefix; all of them when header + questions fit; with the
    limit-aware loop they end at or below the limit *)
+(* the flags read by T1 are [true] on the current source (fixes 4f39cd3, a929056);
+   were one [false] again, the [reflexivity] below fails and the check breaks *)
+Lemma fq_true : FQ = true. Proof. reflexivity. Qed.
+Lemma eq_true : EQ = true. Proof. reflexivity. Qed.
+
+(* the questions kept: a prefix; all of them when header + questions fit; they
+   always end at or below the limit *)
 Lemma top_kept_questions max qs :
   (exists rest, qs = kept_q max qs ++ rest) /\
   (12 + qs_len qs <= max -> kept_q max qs = qs) /\
-  (FQ = false -> kept_q max qs = qs) /\
-  (FQ = true -> 12 <= max -> 12 + qs_len (kept_q max qs) <= max).
+  (12 <= max -> 12 + qs_len (kept_q max qs) <= max).
 Proof.
   unfold kept_q. split; [apply kept_prefix|]. split; [apply kept_qs_all|].
-  split; [intros ->; apply kept_qs_unlimited|intros ->; apply kept_qs_fits].
+  rewrite fq_true. apply kept_qs_fits.
 Qed.
 
-Lemma top_udp_size_bound rq hint m : mlen m <= 65535 ->
-  ((FQ = true /\ 12 <= tmax rq hint) \/ hq_len m <= tmax rq hint -> mlen (post rq hint m) <= tmax rq hint) /\
-  (FQ = false -> tmax rq hint < hq_len m ->
-     mlen (post rq hint m) = hq_len m /\ tc_set (m_b2 (post rq hint m)) = true /\
-     m_an (post rq hint m) = [] /\ m_ns (post rq hint m) = [] /\ m_ar (post rq hint m) = []).
-Proof. apply udp_size_bound_gen. Qed.
+Lemma top_udp_size_bound rq hint m : mlen m <= 65535 -> 12 <= tmax rq hint ->
+  mlen (post rq hint m) <= tmax rq hint.
+Proof.
+  intros H L. destruct (udp_size_bound_gen FX FQ EQ rq hint m H) as (B & _). apply B.
+  left. split; [exact fq_true|exact L].
+Qed.
 
 Lemma top_udp_size_bound_one_question rq cfg m r q :
   m_qs m = [q] -> wf_q q -> hint_ok cfg -> mlen m <= 65535 ->
@@ -85,26 +91,14 @@ Proof.
   rewrite (top_limit_is_text _ _ Hk) in L. inversion L; subst. exact B.
 Qed.
 
-(* the whole datagram server, every path: within the property text's limit once
-   truncate limits the questions and error responses echo at most one question *)
-Lemma top_udp_server_bound_once_fixed : FQ = true -> EQ = true ->
-  forall x cfg svc r, hint_ok cfg -> Forall wf_q (firstn 1 (x_qs x)) ->
+(* the whole datagram server, every path: within the property text's limit *)
+Lemma top_udp_server_bound x cfg svc r : hint_ok cfg -> Forall wf_q (firstn 1 (x_qs x)) ->
   (forall m, svc = SvcOk m -> mlen m <= 65535) ->
   udp_server x cfg svc = Ok (Some r) -> mlen r <= text_limit (x_client x) cfg.
 Proof.
   assert (F : FX = true) by reflexivity.
-  unfold udp_server. rewrite F. intros -> ->. exact udp_server_bound.
+  unfold udp_server. rewrite F, fq_true, eq_true. apply udp_server_bound.
 Qed.
-
-Lemma top_many_questions_refuted : FQ = false ->
-  exists r, udp_server many_q_x None many_q_svc = Ok (Some r) /\
-            tc_set (m_b2 r) = true /\ mlen r = 712 /\ text_limit (x_client many_q_x) None = 512.
-Proof. unfold udp_server. intros ->. apply many_questions_refuted_gen. Qed.
-
-Lemma top_error_echo_refuted : EQ = false ->
-  exists r, udp_server many_q_reply (Some 1232) SvcNone = Ok (Some r) /\
-            tc_set (m_b2 r) = false /\ mlen r = 723 /\ text_limit (x_client many_q_reply) (Some 1232) = 512.
-Proof. unfold udp_server. intros ->. apply error_echo_refuted_gen. Qed.
 
 Lemma top_udp_server_total x cfg svc : exists r, udp_server x cfg svc = Ok r.
 Proof. apply udp_server_total. Qed.
@@ -133,9 +127,10 @@ Proof. apply truncated_wellformed_gen. Qed.
 Lemma top_id_question_echoed rq cfg m r : mlen m <= 65535 ->
   udp_response rq cfg m = Ok r ->
   m_id r = rq_id rq /\ (exists rest, m_qs m = m_qs r ++ rest) /\
-  (FQ = false -> m_qs r = m_qs m) /\
   (forall q, hint_ok cfg -> m_qs m = [q] -> wf_q q -> m_qs r = [q]).
-Proof. apply id_question_echoed. Qed.
+Proof.
+  intros H E. destruct (id_question_echoed _ _ _ rq cfg m r H E) as (A & B & _ & C). auto.
+Qed.
 
 Lemma top_udp_response_total rq cfg m : exists r, udp_response rq cfg m = Ok r.
 Proof. apply udp_response_total. Qed.
